@@ -293,7 +293,7 @@ func init() {
 			cases = append(cases, c)
 		}
 		rep.Extra["corpus_programs"] = len(cnames)
-		rep.Rule = "the book programs of /repo/test (copied to corpus/book) under line-level re-layouts, and seeded programs (labels, EQUs, data with strings containing ; # , and quotes, GLOBAL, both modes) rendered canonically and in token-preserving re-layouts: ';' and '#' comments (text with quotes, commas, brackets, Japanese) after any statement or on their own lines, blank lines, indentation of any statement including labels, tabs/spaces, 0-2 blanks around commas, operators, parentheses and inside brackets, trailing whitespace, LF/CRLF/CR, final newline present/absent, layout-only lines after the last statement, files ending in every kind of statement; " +
+		rep.Rule = "the book programs of /repo/test (copied to corpus/book) under line-level re-layouts, and seeded programs (labels, EQUs, data with strings containing ; # , and quotes, GLOBAL lists of 1-4 and EXTERN lists of 2-5 names, both modes) rendered canonically and in token-preserving re-layouts: ';' and '#' comments (text with quotes, commas, brackets, Japanese) after any statement or on their own lines, blank lines, indentation of any statement including labels, tabs/spaces, 0-2 blanks around commas, operators, parentheses and inside brackets, trailing whitespace, LF/CRLF/CR, final newline present/absent, layout-only lines after the last statement, files ending in every kind of statement; " +
 			"only gaps where NASK lexically allows whitespace are varied; a part of the programs also goes through the real command (cmd/gosk) in layouts that only its file reading could treat differently: physical lines of 65535, 65536 and 70000 bytes (comment, trailing blanks, gap after the mnemonic), 9000 extra lines with LF and CRLF ends, 10^5 blank lines, no final newline; the command must leave the bytes and exit status of the canonical layout; oracle: every re-layout assembles to the bytes of the canonical layout; distinct = (mode, origin, size bucket) cells; each case carries several layouts"
 		// the same property through the real command: layouts that only the file-reading side could treat differently
 		ncli := 0
